@@ -1440,9 +1440,10 @@ class MPO(MPSGeometry):
             if self.get_IdL(i) is None:
                 continue
             partial_L[self.get_IdL(i)] = [([], 1.0)]
+            max_range_i = max_range
             if self.finite:
-                max_range = min(max_range, L - i - 1)
-            for k in range(max_range + 1):
+                max_range_i = min(max_range, L - i - 1)  # local: `start` need not be sorted
+            for k in range(max_range_i + 1):
                 j = i + k
                 IdL = self.get_IdL(j)
                 IdR = self.get_IdR(j)
